@@ -1868,7 +1868,9 @@ moreData:
 		}
 		if kind == kindHTTP {
 			if len(msg.Args) == 0 {
-				return nil, errInvalidHTTP
+				// keep the commands already parsed from this packet
+				err = errInvalidHTTP
+				break
 			}
 			msgs = append(msgs, msg)
 		} else if len(args) > 0 {
